@@ -63,12 +63,24 @@ def impose_no_cancel_after_error(S, T):
     T.st.heap['cancel_requested'] = Store(new, TASK, If(S.f('_error', CIRC) != Val.VNone, old[TASK], new[TASK]))
 
 
+def impose_errors_are_exceptions(S, T):
+    """what abort() records is an exception object (contract of Circuit.abort, C09)"""
+    cx = Int('c!ee')
+    new = T.whole('_error')
+    T.st.heap['_error'] = z3.Lambda([cx], If(Or(new[cx] == Val.VNone, And(Val.is_Obj(new[cx]), calls.inst_of(Val.ref(new[cx]), BaseException))),
+                                             new[cx], S.whole('_error')[cx]))
+
+
+CALLEE_GUARANTEES.extend([impose_errors_are_exceptions, impose_no_cancel_after_error])
+
+
 def env_step(ex, st, sync=False):
     """what other tasks (or, with sync=True, code called synchronously from this task: handlers, stop(), start()) may do"""
     post = st.copy()
     for f in (HANDLER_EFFECTS + ('st_items', '__cause__') if sync else ENV_FIELDS): post.havoc_field(f)
     S, T = View(st), View(post)
-    impose_error_write_once(S, T); impose_outputs_stay_defined(S, T); impose_steps_only_advance(S, T); impose_no_cancel_after_error(S, T)
+    impose_error_write_once(S, T); impose_errors_are_exceptions(S, T); impose_outputs_stay_defined(S, T); impose_steps_only_advance(S, T)
+    impose_no_cancel_after_error(S, T)
     if sync: impose_queues_only_grow(S, T)
     else: impose_tasks_stay_done(S, T); impose_events_stay_set(S, T)
     return post
@@ -167,7 +179,7 @@ def wf_entry(v):
     return And(Val.is_T(v), tup_len(k) == 3, Val.is_Obj(tup_item(k, 0)), Val.is_Obj(tup_item(k, 1)), Val.is_R(tup_item(k, 2)))
 
 
-ENV_GUARANTEES = lambda S, T: (impose_error_write_once(S, T), impose_outputs_stay_defined(S, T), impose_steps_only_advance(S, T),
+ENV_GUARANTEES = lambda S, T: (impose_error_write_once(S, T), impose_errors_are_exceptions(S, T), impose_outputs_stay_defined(S, T), impose_steps_only_advance(S, T),
                                impose_tasks_stay_done(S, T), impose_events_stay_set(S, T), impose_no_cancel_after_error(S, T))
 
 
@@ -283,9 +295,18 @@ def advance_clock(st):
     now = fresh('now', RealSort()); st.assume(now >= st.ghost['now']); st.ghost['now'] = now
 
 
+def observe_error(st):
+    """history variable `first_err`: the first recorded error seen at an observation point (every traced call, every environment step)"""
+    if 'first_err' not in st.ghost: return
+    cur = st.ghost['first_err']
+    st.ghost['first_err'] = If(cur != Val.VNone, cur, st.readz('_error', CIRC))
+
+
 _env_step0 = env_step
 def env_step(ex, st, sync=False):
+    st = st.copy(); observe_error(st)
     post = _env_step0(ex, st, sync)
+    observe_error(post)
     if not sync and post.ghost.get('now') is not None: advance_clock(post)
     return post
 
@@ -500,3 +521,248 @@ def verify_init_async(run):
                calls={'self.getblocks': sblocks_of, 'blk.has_method': has_method_call, 'blk.init_async': coroutine_call('init_async'),
                       'asyncio.create_task': create_task_call},
                hooks={'await': awaits({'*': await_contracted})})
+
+
+# ---- Circuit.run_forever ---------------------------------------------------------------------------------------------------------------
+declare_fields(persistent_dict=VAL, st_items=DICT, persistent=BOOL, persistent_ts=VAL, sblock_queue=Ref('SblockQueue'))
+AP = lambda: calls.C_class('AddonPersistence')
+RF_EFFECTS = tuple(dict.fromkeys(LIFE_EFFECTS + ('_simtask', 'sblock_queue', '_init_done', '_finalized', 'persistent', 'persistent_ts', 'inputs',
+                                                 'iconnections', 'oconnections', '_blocks', 'dyn_attrs', '_unresolved')))
+
+
+def is_exception(v): return And(Val.is_Obj(v), calls.inst_of(Val.ref(v), BaseException))
+
+
+def my_blocks(S, me): return lambda b: And(S.whole('circuit')[b] == me, calls.inst_of(b, calls.C_class('Block')))
+
+
+def setup_call(name, sets_finalized=False):
+    """_check_persistent_data / _resolver.resolve / finalize as seen by run_forever (their contracts: C06, C15): they may fail"""
+    def h(ex, e, st):
+        me = as_kind(st.env['self'], Ref(), st)
+        outs = []
+        for fail in (False, True):
+            s2 = st.copy(); ex.emit(s2, rec(name, Val.Obj(me)))
+            for f in ('persistent', 'persistent_ts', 'st_items', '_finalized'): s2.havoc_field(f)
+            if fail:
+                s2.label(f'{name}:raises')
+                outs.append((s2, Raise(PExc('OtherException', val=Val.Obj(fresh('exc', IntSort())), where='callee'))))
+            else:
+                if sets_finalized: s2.assume(s2.readz('_finalized', me))
+                outs.append((s2, P_NONE))
+        return outs
+    return h
+
+
+def start_call(ex, e, st):
+    blk = as_kind(st.env['blk'], Ref(), st)
+    outs = []
+    for s2, r in lifecycle_call('start')(ex, e, st):
+        if not isinstance(r, Raise): s2.ghost['started'] = Store(s2.ghost['started'], blk, BoolVal(True))
+        outs.append((s2, r))
+    return outs
+
+
+def new_queue(ex, e, st):
+    st = st.copy(); q = fresh('queue', IntSort())
+    st.heap['q_set'] = Store(st.comp('q_set', RefSet), q, K(IntSort(), BoolVal(False)))
+    return [(st, ZV('ref', q, 'SblockQueue'))]
+
+
+def new_event(ex, e, st):
+    st = st.copy(); ev = fresh('event', IntSort())
+    st.heap['ev_set'] = Store(st.comp('ev_set', BoolSort()), ev, BoolVal(False))
+    return [(st, ZV('ref', ev, 'AsyncEvent'))]
+
+
+def init_done_set(ex, e, st):
+    st = st.copy(); me = as_kind(st.env['self'], Ref(), st)
+    ev = st.readz('_init_done', me)
+    ex.emit(st, rec('init_done.set', Val.Obj(ev)))
+    st.heap['ev_set'] = Store(st.comp('ev_set', BoolSort()), ev, BoolVal(True))
+    return [(st, P_NONE)]
+
+
+def current_task(ex, e, st):
+    return [(st, ZV('val', Val.Obj(TASK)))]
+
+
+def rf_save_call(ex, e, st):
+    """blk.save_persistent_state() (contract: C06): writes the storage only, never raises"""
+    st = st.copy(); blk = as_kind(st.env['blk'], Ref(), st)
+    ex.emit(st, rec('save_persistent_state', Val.Obj(blk)))
+    st.havoc_field('st_items')
+    return [(st, P_NONE)]
+
+
+def unix_time(ex, e, st):
+    st = st.copy(); t = fresh('unixnow', RealSort()); st.ghost['last_unix'] = t
+    return [(st, ZV('real', t))]
+
+
+def empty_refset(ex, e, st):
+    if e.args: raise Unsupported('set(<iterable>) in run_forever')
+    return [(st, PSet(K(IntSort(), BoolVal(False)), 'ref'))]
+
+
+def await_eager_test(ex, node, st):
+    """_test_eager_tasks(): does not suspend; raises RuntimeError under an eager task factory"""
+    bad = st.copy(); bad.label('eager_tasks')
+    return [(st, P_NONE), (bad, Raise(PExc('RuntimeError', val=Val.Obj(fresh('exc', IntSort())), where='callee')))]
+
+
+def await_sleep0_rf(ex, node, st):
+    """the two `await asyncio.sleep(0)` of run_forever: the first one completes the start phase"""
+    same = sorted((n.lineno, n.col_offset) for n in ast.walk(ex.spec.node) if isinstance(n, ast.Await) and ast.unparse(n.value) == 'asyncio.sleep(0)')
+    first = same and (node.lineno, node.col_offset) <= (same[0][0], same[0][1] + 6)
+    outs = []
+    for s2, r in sim_await(ex, st, lambda s: [(s, P_NONE)]):
+        if first and not isinstance(r, Raise): s2.ghost['start_completed'] = BoolVal(True)
+        outs.append((s2, r))
+    return outs
+
+
+def await_simulate(ex, node, st):
+    """await self._simulate(): contract of _simulate (C01/C10): never returns; it ends by cancellation or by an error"""
+    st = st.copy(); me = as_kind(st.env['self'], Ref(), st)
+    ex.emit(st, rec('_simulate', Val.Obj(me)))
+    outs = []
+    for s2, r in sim_await(ex, st, lambda s: []):
+        outs.append((s2, r))
+    for cls in ('EdzedCircuitError', 'OtherException'):
+        b = env_step(ex, st); b.assume(Not(View(b).f('task_done', TASK))); b.label(f'_simulate:raises:{cls}')
+        outs.append((b, Raise(PExc(cls, val=Val.Obj(fresh('exc', IntSort())), where='callee'))))
+    return outs
+
+
+@contract('Circuit.run_forever', qual=Q + 'run_forever', modifies=RF_EFFECTS, self_cls='Circuit')
+def _run_forever(c):
+    me = c.z('self')
+    b = Int('b!rf')
+    c.requires('the_only_circuit', me == CIRC)
+    c.requires('the_current_task_is_running', And(Not(c.pre('task_done', TASK)), Not(c.pre('cancel_requested', TASK))))
+    c.requires('error_is_none_or_an_exception', Or(c.pre('_error', me) == Val.VNone, is_exception(c.pre('_error', me))))
+    c.requires('storage_is_none_or_a_mapping', Or(c.pre('persistent_dict', me) == Val.VNone, Val.is_Obj(c.pre('persistent_dict', me))))
+    restart = c.pre('_simtask', me) != Val.VNone
+    c.raises('EdzedInvalidState', when=restart, iff=True, label='cannot_be_started_twice')
+    c.raises('RuntimeError', when=Not(restart), label='eager_task_factory')
+    c.ensures('never_returns_normally', BoolVal(False))
+    w = Int('some_started_block')
+    def at_exit(post, exc):
+        g = post.g
+        return [exc == post.f('_error', me),                                                     # what is raised is Circuit.error
+                Implies(c.pre('_error', me) != Val.VNone, exc == c.pre('_error', me)),           # abort() before the start: the start fails with that error
+                post.f('_simtask', me) == Val.Obj(TASK),                                         # -> it can never be started again
+                Implies(g('started')[w], g('stop_called')),                                      # started blocks are stopped
+                Implies(g('first_err') != Val.VNone, exc == g('first_err'))]                     # the first recorded error is the one reported
+    for cls in ('CancelledError', 'StoredException', 'StoredBaseException'):
+        c.raises(cls, when=Not(restart), unchanged=False, label=f'ends_with_the_recorded_error:{cls}', ensures=at_exit)
+    if not c.verifying: return
+    c.requires('witness', BoolVal(True))
+    pd = c.pre('persistent_dict', me)
+    def expected(k, r, st):
+        observe_error(st)
+        g = st.ghost
+        fn = z3.simplify(Rec.fn(r)).as_string()
+        x = Val.ref(Rec.recv(r))
+        mine = my_blocks(View(st), me)
+        if fn in ('_check_persistent_data', 'resolve', 'finalize'):
+            want = {'_check_persistent_data': 0, 'resolve': 1, 'finalize': 2}[fn]
+            goals = [('circuit_is_set_up_before_any_block_is_started', And(g['phase'] == want, Not(g['cleanup'])))]
+            g['phase'] = IntVal(want + 1)
+            return goals
+        if fn == 'start':
+            goals = [('start_once_per_block_after_the_setup', And(g['phase'] == 3, mine(x), Not(g['start_called'][x]), Not(g['cleanup'])))]
+            g['start_called'] = Store(g['start_called'], x, BoolVal(True))
+            return goals
+        if fn in ('_init_sblocks_sync_1', '_init_sblocks_async', '_init_sblocks_sync_2'):
+            want = {'_init_sblocks_sync_1': 3, '_init_sblocks_async': 4, '_init_sblocks_sync_2': 5}[fn]
+            goals = [('initialisation_steps_in_order', And(g['phase'] == want, Not(g['cleanup']))),
+                     ('initialisation_after_the_start_completed', g['start_completed']),
+                     ('initialisation_after_all_blocks_were_started', ForAll([b], Implies(mine(b), g['started'][b])))]
+            g['phase'] = IntVal(want + 1)
+            return goals
+        if fn == 'init_done.set':
+            goals = [('initialisation_is_reported_done_only_after_it_succeeded', And(g['phase'] == 6, Not(g['cleanup']), st.readz('_error', me) == Val.VNone)),
+                     ('the_event_of_this_circuit', x == st.readz('_init_done', me))]
+            g['phase'] = IntVal(7)
+            return goals
+        if fn == '_simulate':
+            goals = [('simulation_starts_after_the_initialisation', And(g['phase'] == 7, Not(g['cleanup'])))]
+            g['phase'] = IntVal(8)
+            return goals
+        if fn == 'save_persistent_state':
+            goals = [('states_are_saved_at_stop_only_if_the_start_completed', And(g['start_completed'], pd != Val.VNone)),
+                     ('saved_before_the_blocks_are_stopped', Not(g['stop_called'])),
+                     ('only_started_persistent_blocks_once', And(g['started'][x], calls.inst_of(x, AP()), mine(x), Not(g['saved'][x])))]
+            g['saved'] = Store(g['saved'], x, BoolVal(True)); g['cleanup'] = BoolVal(True)
+            return goals
+        if fn == '_stop_sblocks':
+            items = st.comp('st_items', DictS)[Val.ref(pd)]
+            goals = [('exactly_the_started_blocks_are_stopped_once', And(Not(g['stop_called']), ForAll([b], g['stop_arg'][b] == g['started'][b]))),
+                     ('states_and_stop_time_saved_before_stopping', Implies(And(g['start_completed'], pd != Val.VNone),
+                          And(ForAll([b], g['saved'][b] == And(g['started'][b], mine(b), calls.inst_of(b, AP()))),
+                              items[StringVal('edzed-stop-time')] == Opt.Some(Val.R(g['last_unix'])))))]
+            g['stop_called'] = BoolVal(True); g['cleanup'] = BoolVal(True)
+            return goals
+        return [('no_other_call', BoolVal(False))]
+    c.expect_trace(expected, None, normal_len=None, predicate=True)
+
+
+def stop_sblocks_await(ex, node, st):
+    """await self._stop_sblocks(started_blocks): the contract of _stop_sblocks; the argument is remembered for the order automaton"""
+    outs = []
+    for s1, v in ex.ev(node.args[0], st):
+        s1 = s1.copy(); s1.ghost['stop_arg'] = as_kind(v, REFSET, s1)
+        outs.extend(ex.ev(node, s1))
+    return outs
+
+
+def stop_time_store(ex, st, target, value):
+    return None
+
+
+def inv_rf_start(lc):
+    g = lc.st.st.ghost; b = Int('b!rs')
+    st = lc.st
+    me = as_kind(lc.pre.args['self'], Ref())
+    sb = as_kind(lc.local('started_blocks'), REFSET)
+    return [('started_are_the_visited', ForAll([b], And(g['started'][b] == lc.done[b], g['start_called'][b] == lc.done[b], sb[b] == lc.done[b]))),
+            ('phase', And(g['phase'] == 3, Not(g['cleanup']), Not(g['start_completed']), Not(g['stop_called']))),
+            ('nothing_saved', ForAll([b], Not(g['saved'][b]))),
+            ('task', And(st.f('_simtask', me) == Val.Obj(TASK), Not(st.f('task_done', TASK)), st.whole('circuit') == lc.pre.whole('circuit'),
+                         st.f('persistent_dict', me) == lc.pre.f('persistent_dict', me), Not(lc.local('start_ok').obj if isinstance(lc.local('start_ok'), PConst) else truth(lc.local('start_ok'), st.st)))),
+            ('error_is_none_or_an_exception', Or(st.f('_error', me) == Val.VNone, is_exception(st.f('_error', me)))),
+            ('recorded_error_kept', Implies(lc.pre.f('_error', me) != Val.VNone, st.f('_error', me) == lc.pre.f('_error', me))),
+            ('first_error_kept', Implies(g['first_err'] != Val.VNone, st.f('_error', me) == g['first_err']))]
+
+
+def inv_rf_save(lc):
+    g = lc.st.st.ghost; e = lc.entry.st.ghost; b = Int('b!sv')
+    st = lc.st
+    me = as_kind(lc.pre.args['self'], Ref())
+    return [('saved_are_the_visited', ForAll([b], g['saved'][b] == lc.done[b])),
+            ('first_error_kept', Implies(g['first_err'] != Val.VNone, st.f('_error', me) == g['first_err'])),
+            ('ghosts_unchanged', And(g['phase'] == e['phase'], g['start_completed'] == e['start_completed'], Not(g['stop_called']),
+                                     ForAll([b], g['started'][b] == e['started'][b]))),
+            ('state_unchanged', And(st.whole('_error') == lc.entry.whole('_error'), st.whole('cancel_requested') == lc.entry.whole('cancel_requested'),
+                                    st.whole('task_done') == lc.entry.whole('task_done'), st.whole('_simtask') == lc.entry.whole('_simtask'),
+                                    st.whole('circuit') == lc.entry.whole('circuit'), st.whole('persistent_dict') == lc.entry.whole('persistent_dict')))]
+
+
+def verify_run_forever(run):
+    none = K(IntSort(), BoolVal(False))
+    G = {'phase': IntVal(0), 'cleanup': BoolVal(False), 'start_called': none, 'started': none, 'saved': none, 'start_completed': BoolVal(False),
+         'stop_called': BoolVal(False), 'last_unix': RealVal(0), 'first_err': Val.VNone, 'stop_arg': none, 'now': z3.Real('now0')}
+    run.verify('Circuit.run_forever', cls='Circuit', ghost=G,
+               invariants={'for blk in self.getblocks()': inv_rf_start,
+                           'for blk in started_blocks.intersection(self.getblocks(addons.AddonPersistence))': inv_rf_save},
+               calls={'self.getblocks': sblocks_of, 'self._simtask.done': task_pred('task_done'), 'asyncio.current_task': current_task,
+                      'set': empty_refset, 'asyncio.Queue': new_queue, 'asyncio.Event': new_event,
+                      'self._check_persistent_data': setup_call('_check_persistent_data'), 'self._resolver.resolve': setup_call('resolve'),
+                      'self.finalize': setup_call('finalize', sets_finalized=True), 'blk.start': start_call,
+                      'self._init_done.set': init_done_set, 'blk.save_persistent_state': rf_save_call, 'time.time': unix_time},
+               hooks={'heap_dicts': True,
+                      'await': awaits({'asyncio.sleep(0)': await_sleep0_rf, '_test_eager_tasks()': await_eager_test,
+                                       'self._simulate()': await_simulate, 'self._stop_sblocks(started_blocks)': stop_sblocks_await,
+                                       '*': await_contracted})})
